@@ -89,3 +89,12 @@ func concat(bs ...[]byte) []byte {
 	}
 	return out
 }
+
+func sortedInts(m map[int]bool) []int {
+	out := make([]int, 0, len(m))
+	for k := range m {
+		out = append(out, k)
+	}
+	sort.Ints(out)
+	return out
+}
